@@ -9,6 +9,7 @@
 #include "raptor/gallery/par_stencil.hpp"
 #include "raptor/gallery/diffusion.hpp"
 #include "raptor/util/linalg/repartition.hpp"
+#include "raptor/aggregation/par_mis.hpp"
 using namespace raptor;
 static vh::Env E;
 template <class T> static std::vector<long long> LL(const std::vector<T>& v) { return std::vector<long long>(v.begin(), v.end()); }
@@ -124,6 +125,32 @@ static Result scenario(int which, uint64_t seed)
         R.reals = ml->get_residuals();
         for (int i = 0; i < x.local_n; i++) R.reals.push_back(x.local.values[i]);
         delete ml; delete A;
+    } else if (which == 6) {
+        // distance-two independent set on a directed strength pattern: a chain inside every rank plus one coupling per row into
+        // the next rank, so every rank sends halo data to one neighbour and receives from another (the sets differ); very
+        // unequal block sizes, so the ranks finish in different rounds and the termination handshake (tags 19432 / 23491) matters
+        std::vector<int> m(np); for (int r = 0; r < np; r++) m[r] = 2 + (int)((seed / 7 + 5 * r * r) % 13);
+        m[(seed / 3) % np] = 2;
+        int n = 0, first = 0; std::vector<int> firsts(np + 1, 0);
+        for (int r = 0; r < np; r++) { firsts[r + 1] = firsts[r] + m[r]; if (r < rank) first += m[r]; n += m[r]; }
+        std::vector<double> w(m[rank]); for (int j = 0; j < m[rank]; j++) w[j] = (((first + j) * 7919LL + seed) % n + 0.5 * ((first + j) % 2) + 0.25) / (double)(n + 1);
+        ParCSRMatrix* S = new ParCSRMatrix(n, n, m[rank], m[rank], first, first);
+        S->on_proc->idx1[0] = 0; S->off_proc->idx1[0] = 0;
+        int nxt = (rank + 1) % np;
+        for (int j = 0; j < m[rank]; j++) {
+            int gi = first + j;
+            if (j > 0) S->add_value(j, gi - 1, 1.0);
+            S->add_value(j, gi, 1.0);
+            if (j < m[rank] - 1) S->add_value(j, gi + 1, 1.0);
+            if (np > 1) S->add_value(j, firsts[nxt] + (j % m[nxt]), 1.0);
+            S->on_proc->idx1[j + 1] = S->on_proc->idx2.size(); S->off_proc->idx1[j + 1] = S->off_proc->idx2.size();
+        }
+        S->on_proc->nnz = S->on_proc->idx2.size(); S->off_proc->nnz = S->off_proc->idx2.size();
+        S->finalize();
+        std::vector<int> states, off_states;
+        int iters = mis2(S, states, off_states, false, w.data());
+        add(R, LL(states)); add(R, { (long long)iters });
+        delete S;
     } else {
         int n = g.range(2 * np, 4 * np + 4);
         std::vector<int> Rw = vh::compose(g, n, np, 1);
@@ -161,7 +188,9 @@ int main(int argc, char** argv)
     int sites[] = { 12345, 6543, 9876, 6789, 4321, 7890, 29485 };
     if (np <= (E.thorough ? 4 : 3)) { int nperm = 1; for (int k = 2; k <= np; k++) nperm *= k;
         for (int s : sites) for (int p = 1; p < nperm; p++) scheds.push_back({3, s, p, 0, 400}); }
-    int nscen = 6;
+    // slow tag: the termination handshake of mis2 (and the package handshakes) with every message of one tag 20 ms late
+    { int slow[] = { 19432, 23491 }; for (int t : slow) for (int who = 0; who <= std::min(np, 3); who++) scheds.push_back({5, t, who, 20000, 0}); }
+    int nscen = 7;
     for (int scen = 0; scen < nscen; scen++)
     for (int inst = 0; inst < (E.thorough ? 3 : 1); inst++)
     {
@@ -172,6 +201,8 @@ int main(int argc, char** argv)
             Sched sc = scheds[si];
             if (sc.mode == 3 && sc.site == 29485 && scen != 4) continue;         // site only exists in the repartition scenario
             if (sc.mode == 3 && sc.site != 12345 && sc.site != 29485 && scen == 4) continue;
+            if (sc.mode == 5 && scen != 6 && scen != 3) continue;                 // the handshake tags exist in the MIS-2 scenarios only
+            if (sc.mode == 3 && scen == 6) continue;
             char buf[160]; snprintf(buf, 160, "scen%d/inst%d/sched%zu(mode%d,site%d,perm%d,delay%d,gather%d)", scen, inst, si, sc.mode, sc.site, sc.perm, sc.delay, sc.gather);
             E.about(buf);
             MPI_Barrier(MPI_COMM_WORLD);
